@@ -101,6 +101,13 @@ def parse_template(text):
             if s == "" or s.startswith("//"):
                 continue
             raise ValueError("non-directive line inside extract block: " + line)
+        if s.startswith("//@flagset "):
+            if buf:
+                out.append(("text", "\n".join(buf)))
+                buf = []
+            f, rx, ex = [x.strip() for x in s[len("//@flagset "):].split("::")]
+            out.append(("flagset", (f, rx, ex)))
+            continue
         if s.startswith("//@consts "):
             if buf:
                 out.append(("text", "\n".join(buf)))
@@ -215,6 +222,41 @@ def assemble(repo, template_text, canary_set=None):
                     if "lemma:" + name in canary_set:
                         txt = txt[:off] + " false, " + txt[off:]
             chunks.append(txt + "\n")
+        elif kind == "flagset":
+            # generated (not extracted) spec text over the NAMES of the consts found in /repo: the known-bit mask and
+            # the statement that the flags are distinct single bits.  Names come from the working tree on every run.
+            f, rx, ex = val
+            src = rsx._load(repo, f)
+            items = rsx.parse_items(src.toks, 0, len(src.toks))
+            names = [it.name for it in items if it.kind == "const" and it.name and re.fullmatch(rx, it.name)
+                     and not re.fullmatch(ex, it.name)]
+            if not names:
+                raise rsx.ExtractError("anchor lost: no const matching %s in %s" % (rx, f))
+            mask = " | ".join(["0u64"] + names)
+            wf = ["(%s != 0 && %s & sub(%s, 1) == 0)" % (n, n, n) for n in names]
+            wf += ["%s != %s" % (a, b) for i, a in enumerate(names) for b in names[i + 1:]]
+            unk = ex
+            gen = ("pub open spec fn gen_known_mask() -> u64 { %s }\n"
+                   "pub open spec fn gen_flags_distinct_single_bits() -> bool { %s }\n"
+                   "pub open spec fn gen_flag_count() -> int { %d }\n"
+                   "/// generated: every known flag is a distinct single bit, %s is a single bit, and the known flags\n"
+                   "/// are exactly the bits below it (no hole an unknown bit could hide in)\n"
+                   "pub proof fn gen_lemma_flag_layout()\n"
+                   "    ensures gen_flags_distinct_single_bits(),\n"
+                   "            %s != 0 && %s & sub(%s, 1) == 0,\n"
+                   "            gen_known_mask() == sub(%s, 1),\n"
+                   "{\n"
+                   "    assert(%s) by (bit_vector);\n"
+                   "    assert(%s != 0 && %s & sub(%s, 1) == 0) by (bit_vector);\n"
+                   "    assert((%s) == sub(%s, 1)) by (bit_vector);\n"
+                   "}\n" % (mask, "\n && ".join(wf), len(names), unk, unk, unk, unk, unk,
+                             "\n && ".join(wf), unk, unk, unk, mask, unk))
+            for name_, _ in find_template_lemmas(gen):
+                asm.lemmas.append(name_)
+            if canary_set and "lemma:gen_lemma_flag_layout" in canary_set:
+                gen = gen.replace("    ensures gen_flags_distinct_single_bits(),", "    ensures false, gen_flags_distinct_single_bits(),")
+            chunks.append(gen)
+            asm.generated = getattr(asm, "generated", []) + [{"flagset": names}]
         elif kind == "consts":
             f, rx = val
             src = rsx._load(repo, f)
@@ -378,7 +420,8 @@ def parse_diagnostics(stderr):
     return diags
 
 
-PROOF_FAILURE_MSGS = ("postcondition not satisfied", "precondition not satisfied", "assertion failed",
+PROOF_FAILURE_MSGS = ("postcondition not satisfied", "bitvector assertion not satisfied", "bitvector ensures not satisfied",
+                      "requires not satisfied", "assertion not satisfied", "nonlinear", "expression simplifies to", "precondition not satisfied", "assertion failed",
                       "invariant not satisfied", "possible arithmetic underflow/overflow", "possible division by zero",
                       "decreases not satisfied", "could not prove termination", "bit shift", "unreachable",
                       "possible bit shift", "loop invariant", "recommendation not met", "index out of bounds",
